@@ -2364,6 +2364,7 @@ class Scene:
         
             # Reset state
             self._airplanes[aircraft_name].set_state(**orig_state)
+            self._perform_geometry_and_atmos_calcs()
             self._solved = False
 
         return derivs
@@ -2391,6 +2392,11 @@ class Scene:
                 self._perform_geometry_and_atmos_calcs()
             self.solve_forces(nondimensional=False, **kwargs)
             FM_bwd = copy.deepcopy(self._FM)
+
+            # Put the geometry back where it belongs before the next variable is perturbed
+            if variable == "position":
+                self._airplanes[aircraft_name].set_state(**orig_state)
+                self._perform_geometry_and_atmos_calcs()
 
         # Quaternion perturbation (includes rotation of the velocity vector to maintain constant Earth-fixed velocity)
         else:
